@@ -205,7 +205,10 @@ impl Run {
                     if self.crash_is_violation {
                         self.reporter.violation(
                             idx * 1_000_000,
-                            format!("{}|crash:{}", prop, sig),
+                            match case["texts"].as_array() {
+                                Some(t) if t.len() == 1 => format!("{}|crash:{}|{}", prop, sig, text_shape(t[0].as_str().unwrap_or(""))),
+                                _ => format!("{}|crash:{}", prop, sig),
+                            },
                             format!("worker process died with signal/status {} while running the case", sig),
                             json!({"case": case}),
                         );
@@ -305,6 +308,53 @@ impl Run {
         }
         self.reporter.finish(evidence)
     }
+}
+
+/// The shape of a text for the signature of a crash: identifiers I, numbers N, strings S, binary operators `op`,
+/// keywords as they are, immediate repetitions of up to four tokens collapsed to `(...)*`; at most 80 characters.
+pub fn text_shape(text: &str) -> String {
+    use vcore::btok::{TokKind, tokenize};
+    const KEYWORDS: [&str; 30] = ["PRINT", "IF", "THEN", "ELSE", "END", "FOR", "TO", "STEP", "NEXT", "WHILE", "WEND", "DO", "LOOP", "UNTIL", "SELECT", "CASE", "SUB", "FUNCTION", "DIM", "NOT", "GOTO", "GOSUB", "RETURN", "DATA", "READ", "INPUT", "CALL", "LET", "CONST", "ELSEIF"];
+    let mut toks: Vec<String> = vec![];
+    for t in tokenize(text) {
+        let up = t.text.to_ascii_uppercase();
+        toks.push(match t.kind {
+            TokKind::Blank => continue,
+            TokKind::Eol => "/".to_string(),
+            TokKind::Str => "S".to_string(),
+            TokKind::Comment => "'".to_string(),
+            TokKind::Number => "N".to_string(),
+            TokKind::Word if matches!(up.as_str(), "AND" | "OR" | "MOD") => "op".to_string(),
+            TokKind::Word if KEYWORDS.contains(&up.as_str()) => up,
+            TokKind::Word => "I".to_string(),
+            _ if matches!(t.text.as_str(), "+" | "-" | "*" | "/" | "<" | ">" | "<=" | ">=" | "<>") => "op".to_string(),
+            _ => t.text.clone(),
+        });
+    }
+    // collapse immediate repetitions of a block of 1..4 tokens
+    let mut out: Vec<String> = vec![];
+    let mut i = 0;
+    while i < toks.len() {
+        let mut done = false;
+        for w in 1..=4usize {
+            if i + 2 * w <= toks.len() && toks[i..i + w] == toks[i + w..i + 2 * w] {
+                let mut j = i + 2 * w;
+                while j + w <= toks.len() && toks[i..i + w] == toks[j..j + w] {
+                    j += w;
+                }
+                out.push(format!("({})*", toks[i..i + w].join(" ")));
+                i = j;
+                done = true;
+                break;
+            }
+        }
+        if !done {
+            out.push(toks[i].clone());
+            i += 1;
+        }
+    }
+    let s = out.join(" ");
+    s.chars().take(80).collect()
 }
 
 /// Runs a group of texts in chunks (`{"texts": [...], ..extra}` per case). A chunk whose
